@@ -349,6 +349,14 @@ impl<'w, 's> Commands<'w, 's>
         }
     }
 
+    /// verification-only: `queue` without the verification switches (always Bevy's behaviour: append to the queue).
+    /// Harnesses that flush runner-bound commands stub `Commands::queue` with this (`#[kani::stub]`), so that the
+    /// "apply at once" branch, which would pull the runner into every `queue` call site, does not exist at all.
+    pub fn m_queue_record<C: Command>(&mut self, c: C)
+    {
+        unsafe { mstate::QUEUED += 1; (*self.queue).push(c) }
+    }
+
     pub fn spawn_empty(&mut self) -> EntityCommands<'_>
     {
         let entity = unsafe { (*self.world).m_reserve_entity() };
